@@ -62,6 +62,9 @@ var c11Files = map[string]string{"f": "F0;", "a/f": "F1;"}
 func c11ResetTree(root string) error {
 	ents, err := ioutil.ReadDir(root)
 	if err != nil {
+		if os.IsNotExist(err) {
+			return fmt.Errorf("ROOT-GONE: %v", err)
+		}
 		return err
 	}
 	for _, e := range ents {
